@@ -873,5 +873,8 @@ class ConsumerGroup(Coordinator):
         This waits for any ongoing processing to complete and commits offsets.
         It may take some time.
         """
-        yield self.shutdown_consumers()
+        # A rejoin can complete while we wait for the consumers to shut down,
+        # starting new consumers: repeat until none are left.
+        while self.consumers:
+            yield self.shutdown_consumers()
         yield super(ConsumerGroup, self).stop(errback_result=errback_result)
